@@ -264,11 +264,52 @@ template <class T> static void line_nearly_parallel ()
     R ().stage_done (std::to_string (cases) + " pairs: 7 base directions x 2 perpendiculars x 10^-j (j=1..16, and 0) x both senses x 2 x 27 origins");
 }
 
+// Nearly parallel lines WITHOUT cancellation: line1 along a coordinate axis e_i, line2 along e_i + 2^-k e_j (stored
+// directly in the public `dir` member; it is a unit vector to rounding for every k >= 12/27). The cross product of the
+// two directions is then exactly 2^-k e_l (one non-zero product per component, nothing cancels), so the common
+// perpendicular is the axis e_l and the distance between the lines is exactly |(p2 - p1) . e_l|, whatever k is — also
+// for k so large that the SQUARE of the cross product underflows. 8 eps (|offset| + 1): one rounding each in the cross
+// product, its length, the dot product and the quotient.
+template <class T> static void line_nearly_parallel_axis ()
+{
+    const LD e = ex::eps<T> ();
+    std::string st = std::string ("line-nearly-parallel-axis.") + tname<T> ();
+    if (!R ().stage (st)) return;
+    const bool dbl = std::numeric_limits<T>::digits > 30;
+    const int  KS[6] = {dbl ? 30 : 14, dbl ? 100 : 40, dbl ? 300 : 60, dbl ? 540 : 70, dbl ? 600 : 100, dbl ? 1000 : 120};
+    const auto P = lattice (2);
+    ll cases = 0;
+    for (int i = 0; i < 3; ++i)
+        for (int jj = 1; jj <= 2; ++jj)
+        {
+            int j = (i + jj) % 3, l = 3 - i - j;
+            for (int k : KS)
+                for (int sg = -1; sg <= 1; sg += 2)
+                    for (const I3& p2 : P)
+                    {
+                        Line3<T> a, b;
+                        a.pos = Vec3<T> (0, 0, 0); a.dir = Vec3<T> (0, 0, 0); a.dir[i] = 1;
+                        b.pos = toV<T> (p2); b.dir = a.dir; b.dir[j] = (T) std::ldexp ((double) sg, -k);
+                        const int off[3] = {(int) p2.x, (int) p2.y, (int) p2.z};
+                        LD want = std::abs (off[l]);
+                        T  d1 = a.distanceTo (b), d2 = b.distanceTo (a);
+                        ++cases;
+                        std::string in = std::string ("T=") + tname<T> () + " line1: pos (0,0,0) dir e" + std::to_string (i) + "; line2: pos " + s (p2) + " dir e" + std::to_string (i) + (sg > 0 ? " + " : " - ") + "2^-" + std::to_string (k) + " e" + std::to_string (j);
+                        if (!(fabsl ((LD) d1 - want) <= 8 * e * (want + 1))) R ().fail ("Line3::distanceTo(Line3).nearly-parallel-without-cancellation", in, s (want), fmt (d1));
+                        if (!(fabsl ((LD) d2 - want) <= 8 * e * (want + 1))) R ().fail ("Line3::distanceTo(Line3).nearly-parallel-without-cancellation", in + " (reversed)", s (want), fmt (d2));
+                    }
+        }
+    R ().add ("states", cases); R ().add ("evaluations", cases); R ().add ("transitions", cases * 2);
+    R ().cls ("line-line.nearly-parallel-axis-aligned(cross product 2^-k)", cases);
+    R ().stage_done (std::to_string (cases) + " pairs: 3 axes x 2 perturbation axes x 6 exponents (down to where the squared cross product underflows) x 2 signs x 125 origins");
+}
+
 void run_lines ()
 {
     line_point<float> (); line_point<double> ();
     line_line<float> (); line_line<double> ();
     line_nearly_parallel<float> (); line_nearly_parallel<double> ();
+    line_nearly_parallel_axis<float> (); line_nearly_parallel_axis<double> ();
 }
 
 // ------------------------------------------------------------------------------------------------
